@@ -2,8 +2,8 @@
   C11 — Supported concurrent use is free of data races.
 
   Model: the lock discipline (Model/Discipline.lean) over the shared-access table regenerated from /repo on every run
-  (Gen/SharedAccess.lean: writes to package variables, writes to the writer's fields with the lock holders and the call
-  graph, not-thread-safe external calls, name-generator and writer-struct writes, pool puts).
+  (Gen/SharedAccess.lean: writes to package variables, writes to and reads of the writer's mutable fields with the lock
+  holders, their locked regions and the call graph over ALL methods of the type, not-thread-safe external calls, name-generator and writer-struct writes, pool puts).
   Theorems: the regenerated table satisfies the discipline (`C11_table`), the unlocked set is closed (`C11_closed`), and
   — generic, for every table — a closed set contains every method that can be reached without the lock
   (`Discipline.closed_sound`), hence every field write of the table happens under writeLock (`C11_fields_locked`).
@@ -20,7 +20,7 @@ namespace Gowarc.Props.C11
 open Gowarc.Discipline
 
 def table : Table :=
-  { pkgVarWrites := Gowarc.Gen.pkgVarWrites, writerFieldWrites := Gowarc.Gen.writerFieldWrites, lockHolders := Gowarc.Gen.lockHolders,
+  { pkgVarWrites := Gowarc.Gen.pkgVarWrites, writerFieldWrites := Gowarc.Gen.writerFieldWrites, writerFieldReads := Gowarc.Gen.writerFieldReads, lockHolders := Gowarc.Gen.lockHolders,
     innerCalls := Gowarc.Gen.innerCalls, outerCalls := Gowarc.Gen.outerCalls, unsafeExternalCalls := Gowarc.Gen.unsafeExternalCalls,
     generatorFieldWrites := Gowarc.Gen.generatorFieldWrites, writerStructWrites := Gowarc.Gen.writerStructWrites, poolPuts := Gowarc.Gen.poolPuts }
 
@@ -44,7 +44,22 @@ theorem C11_fields_locked (field m f : String) (path : List String) (hw : (field
     simp only [Bool.not_eq_true'] at this
     rw [hin] at this; cases this
 
+/-- … and so does every method that reads a field some method assigns -/
+theorem C11_reads_locked (field m f : String) (path : List String) (hw : (field, m) ∈ table.writerFieldReads)
+    (hentry : (f, path.head?.getD m) ∈ table.outerCalls) (hpath : UnlockedPath table path) (hlast : path.getLast? = some m) :
+    table.lockHolders.contains (path.head?.getD m) = true := by
+  cases hnl : table.lockHolders.contains (path.head?.getD m) with
+  | true => rfl
+  | false =>
+    exfalso
+    have hin := closed_sound table (unlocked table) C11_closed f path m hentry hnl hpath hlast
+    have hall : table.writerFieldReads.all (fun w => !(unlocked table).contains w.2) = true := by decide
+    rw [List.all_eq_true] at hall
+    have := hall (field, m) hw
+    simp only [Bool.not_eq_true'] at this
+    rw [hin] at this; cases this
+
 /-- non-vacuity: the table is not empty and the closure computation sees the entry points -/
-example : table.writerFieldWrites.length > 0 ∧ table.outerCalls.length > 0 ∧ table.lockHolders = ["Write", "Close"] := by decide
+example : table.writerFieldWrites.length > 0 ∧ table.writerFieldReads.length > 0 ∧ table.outerCalls.length > 0 ∧ table.lockHolders = ["Write", "Close"] := by decide
 
 end Gowarc.Props.C11
